@@ -8,7 +8,7 @@ LEAN_TARGETS = ['LLTD.Props.C10']
 VARIANT = 'plain'
 RULE = ('two responder instances A and B (distinct addresses from a near-collision pool) in one process: a mapper orders A to emit 1..20 '
         'Probe/Train frames towards B (some towards other stations), A\'s transmitted frames are delivered unmodified to B (`relay`), '
-        'interleaved with unrelated traffic on B, then B is queried until the more flag clears; non-trivial = B reported at least one '
+        'interleaved with unrelated traffic on B before and after the delivery (including Probes from third stations that use the same Ethernet source addresses), then B is queried until the more flag clears; non-trivial = B reported at least one '
         'observation whose real source is A; distinct = distinct projected transcript')
 ASSUMPTIONS = ['port contract as for C02', 'no Reset reaches B between the delivery and the Queries; at most 300 distinct observations']
 
@@ -28,6 +28,10 @@ def cases(rng, tier, X):
             nd = rng.randint(1, 20)
             descs = [(rng.choice([0, 1]), rng.choice([0, 1, 255]), rng.choice([F.rand_mac(rng), mapper, '0c00000000%02x' % i]),
                       b if rng.random() < 0.85 else F.rand_mac(rng)) for i in range(nd)]
+            # unrelated traffic that B records before A's frames arrive: same Ethernet sources, other real sources
+            for d in descs:
+                if rng.random() < 0.25:
+                    ops.append('rx 1 ' + F.probe(d[2], rng.choice([b, F.BCAST]), rng.choice(F.STATIONS + [mapper]), b, train=rng.random() < 0.5))
             ops.append('rx 0 ' + F.emit(mapper, a, rng.randrange(1, 65536), descs))
             ops.append('relay 0 1')
             for _ in range(rng.randint(0, 4)):
